@@ -124,7 +124,7 @@ def run(ck, ctx):
     # ---------------------------------------------------------------- R06.2 one-degree clamp
     def r062():
         b = K.ins["betaE"]
-        phis = [n for n in cone if n.op == "Phi" and n.fn is not None and n.fn.qualname == fn and
+        phis = [n for n in cone if n.op == "Phi" and n.fn is not None and n.fn.qualname.startswith("CphotAng.") and
                 any(x is b for x in walk([n.args[0]]))]
         ok = False
         detail = f"{len(phis)} branch(es) on the emergence angle"
